@@ -114,6 +114,13 @@ def CPc.holds (c : CPc) : Prop :=
 
 instance (c : CPc) : Decidable c.holds := by unfold CPc.holds; infer_instance
 
+/-- pcs inside `waitUntilSizeIsBelow` (either variant) -/
+def PPc.inWaitAny (p : PPc) : Prop :=
+  p = .waitLock ∨ p = .waitCheck ∨ p = .waitCapture ∨ p = .waitUnlockLoop ∨ p = .waitRead ∨
+  p = .waitRecv ∨ p = .waitRelock ∨ p = .waitUnlockExit
+
+instance (p : PPc) : Decidable p.inWaitAny := by unfold PPc.inWaitAny; infer_instance
+
 /-- "at rest": returned, or in the final `<-ctx.Done()` after the end-of-stream marker. -/
 def PPc.atRest (p : PPc) : Prop := p = .eosWait ∨ p = .done
 
@@ -200,11 +207,16 @@ def pStep (pr : Params) (s : Cfg) : Option Cfg :=
   | .eosWait => none
   | .done => none
 
-/-- `fillSegmentQueue`'s ENDLIST branch: `push(nil)` follows the push of the last segment. -/
-def pLastStep (pr : Params) (s : Cfg) : Option Cfg :=
-  match s.ppc, pr.mode with
-  | .afterPush, .traditional => some { s with ppc := .pushLock, pItem := .eos }
-  | _, _ => none
+/-- The end-of-stream branch: `push(nil)` follows the push of the last segment.
+    `fillSegmentQueue`: `if pl.Endlist && pl.Segments[len-1] == seg { push(nil); <-ctx.Done() }`;
+    `runLowLatency` (fix-F28): after the push of the last part the reloaded playlist has ENDLIST and
+    no preload hint: `if pl.PreloadHint == nil { if pl.Endlist { push(nil); <-ctx.Done() } … }`.
+    (The playlist reload between the two pushes is a `download`: it can only fail — the `p` step
+    from `afterPush` — or succeed; taking this branch is the case in which it succeeded.) -/
+def pLastStep (_pr : Params) (s : Cfg) : Option Cfg :=
+  match s.ppc with
+  | .afterPush => some { s with ppc := .pushLock, pItem := .eos }
+  | _ => none
 
 /-- the `ctx.Done()` arm of the producer's blocking statements -/
 def pCancelStep (s : Cfg) : Option Cfg :=
@@ -326,7 +338,8 @@ def skeletonOf (v : Variant) (n : Nat) : Skel where
   pull := pullProgram.map (·.2) ++ [.ret]
   runTraditional := [.loopBegin, .callFill, .callWaitBelow n, .download, .loopEnd]
   fillSegmentQueue := [.download, .callPush, .ifLastBegin, .callPushNil, .ctxWait, .ret, .ifEnd, .ret]
-  runLowLatency := [.loopBegin, .download, .callPush, .download, .loopEnd]
+  runLowLatency := [.loopBegin, .download, .callPush, .download,
+                    .ifNoHintBegin, .ifLastBegin, .callPushNil, .ctxWait, .ret, .ifEnd, .ret, .ifEnd, .loopEnd]
   processorLoop := [.loopBegin, .callPull, .callProcess, .loopEnd]
   processNil := [.ifNilBegin, .ctxWait, .ret, .ifEnd]
 
